@@ -66,6 +66,16 @@ def cases(ctx):
             tx = Transaction(ins, outs, has_segwit=True, witnesses=wits)
             ctx.count('count-boundary')
             yield from tx_cases(ctx, tx, f'count-{what}-{n}')
+    # the same object after it has been used and then changed through its public attributes (stale caches, leaked state)
+    for _ in range(ctx.n(60, 3000)):
+        tx = G.gen_tx(rng, names, max_in=4, max_out=4, big=False)
+        muts = G.random_mutations(rng, tx, names)
+        line0 = tx_to_line(tx)
+        G.apply_mutations(tx, muts)
+        line1 = tx_to_line(tx)
+        ctx.count('after-mutation')
+        yield Case(f'tx_ids_after {line0} {G.muts_line(muts)}', 'ms', nontrivial=True, tag='after-mutation',
+                   model=lambda ans, line1=line1: (f'm:tx_ids {line1}', ans), spec=lambda ans, line1=line1: (f's:tx_ids {line1}', ans))
     # no outputs at all / segwit flag with every stack empty
     yield from tx_cases(ctx, Transaction([TxInput('aa' * 32, 1)], []), 'no-outputs')
     yield from tx_cases(ctx, Transaction([TxInput('aa' * 32, 1)], [TxOutput(5, Script([]))], has_segwit=True,
@@ -102,6 +112,10 @@ def impl(op, a, ctx):
         return 'ok ' + hx(tx.to_bytes(seg))
     if op == 'tx_ids':
         tx = line_to_tx(F); F.done()
+        return f'ok {tx.get_txid()} {tx.get_wtxid()}'
+    if op == 'tx_ids_after':
+        tx = line_to_tx(F); muts = G.parse_muts(F); F.done()
+        G.exercise(tx); G.apply_mutations(tx, muts)
         return f'ok {tx.get_txid()} {tx.get_wtxid()}'
     if op == 'tx_parse':
         return 'ok ' + tx_to_line(Transaction.from_raw(F.bytes().hex()))
